@@ -34,6 +34,8 @@ func propC13(p *Prog, r *Report) {
 	c13Rollback(p, r)
 	r.Rule("C13.d", "each Begin yields an independent transaction: generated id, requested level, fresh snapshot point, registry error returned (shared with C02.f)")
 	c02Defaults(p, r, "C13.d")
+	r.Rule("C13.f", "a handle names one transaction for ever: the id of the inline and external transaction handles is set in the composite literal that constructs the handle and never assigned afterwards")
+	c13HandleIdentityImmutable(p, r, "C13.f")
 	n := wrapClassRule(p, r, "C13.c", wrapOpts{
 		Sentinels: []string{"fs_db.ErrTxNotFound"},
 		Entries:   inlineEntries(p),
@@ -215,6 +217,10 @@ func propC14(p *Prog, r *Report) {
 	c14Consumed(p, r)
 	c14Producers(p, r)
 	c14ReturnsAccumulated(p, r, "C14.b")
+	r.Rule("C14.f", "delete lists are owned by their consumer: a list returned by the core is allocated by the call (make / nil / literal grown by append) and is neither taken from nor kept in a field of the use case")
+	c14FreshLists(p, r, "C14.f")
+	r.Rule("C14.g", "the cleaner attempts every file of a list: in DeleteFiles every iteration of the loop over the list reaches deleteFile and nothing leaves the loop early")
+	c14VisitsEveryFile(p, r, "C14.g")
 	r.Rule("C14.e", "per-iteration capture: no function literal handed on inside a loop (a background job) captures a variable declared outside the loop and reassigned in it")
 	loopClosureCapture(p, r, "C14.e")
 	c04DeleteOrder(p, r, "C14.c")
